@@ -63,6 +63,13 @@ def base(ctx, p):
         ctx.require(False, clause)
 
 
+@harness("C02.numeric")
+def numeric(ctx, p):
+    from . import c04
+
+    c04.numeric(ctx, p)
+
+
 def spec(tier, seed):
     if tier == "quick":
         shp = shapes.shapes_D_upto(2, 2)
@@ -81,6 +88,7 @@ def spec(tier, seed):
             units.append(("C02.step", {"shape": s, "op": op, "P": P, "strl": True}))
     for k in ("empty", "list", "dict", "dihypergraph"):
         units.append(("C02.base", {"kind": k, "shape": None}))
+    units.append(("C02.numeric", {"cls": "D", "shape": None, "op": "numeric ids"}))
     return {
         "units": units,
         "caps": {"paths": 200000 if tier == "quick" else 2000000, "wall": 600 if tier == "quick" else 3000},
